@@ -459,6 +459,12 @@ func runC10(c *core.Ctx, o Options) {
 	c.Explanation += " Y6 also requires that processIncSeq is handed the very message the Logon handler decoded from the peer's bytes (not a Logon of the session's own making, whose number is not the peer's)."
 	c.Explanation += " Y4 also: nothing deletes from or replaces Storage.messages and the only update is messages[msgSeqNum] = msg in Save. Y6 also: a path of the tracking handler that returns without looking at the message is one only WaitingLogon/WaitingLogonAnswer can take."
 	c.Explanation += " Y6 also: the Logon handler sets or resets no counter before the gap check."
+	// Y11 (premises): a valid ResendRequest is seen as valid (C03's integrity rules); the counter store records what it is given
+	c.RulePrefix = "Y11"
+	integrityRules(c)
+	c.RulePrefix = ""
+	checkCounterStorePlain(c, "Y6")
+	c.Explanation += " Y11 premise: the integrity rules V1–V8 of C03. Y6 also: SetSeqNum stores the number it is given unconditionally (a forward-only counter hides a gap after the peer restarted its numbering)."
 	c.RuleMin = map[string]int{"Y1": 1, "Y2": 3, "Y3": 1, "Y4": 4, "Y5": 1, "Y6": 5, "Y7": 3, "Y8": 3, "Y9": 1, "Y10": 18}
 	c.MinObl = 8
 }
